@@ -1,4 +1,5 @@
 import LJT.Proofs.Dest
+import LJT.Proofs.Robust
 /-!
 # C13 - JPEG destination buffer contract: never overrun, sized results, worst-case size
 
@@ -186,5 +187,18 @@ def demoOk : Bool :=
      | .error _ => false)
   | .error _ => false
 example : demoOk = true := by decide +kernel
+
+/-- **The per-block staging buffer of the Huffman encoder is large enough**: whatever the
+tables and the (range-checked) coefficients, one encoded block plus the bits pending from the
+previous block never exceed `BUFSIZE` bytes of src/jchuff.c (regenerated from the working
+tree) even with every byte stuffed - so neither the on-stack buffer nor the destination buffer
+(which is used directly only when it has at least `BUFSIZE` bytes free) is overrun. -/
+theorem block_staging_buffer_suffices (tdc tac : Huff.Tbl) (cdc cac : Huff.CDerived)
+    (h1 : Huff.mkCDerived true false tdc = some cdc) (h3 : Huff.mkCDerived false false tac = some cac)
+    (diff : Int) (ac : List Int) (hlen : ac.length = 63) (hd : diff.natAbs < 32768)
+    (hac : ∀ v ∈ ac, v.natAbs < 32768) (bits : List Bool) (he : SeqHuff.encodeBlock cdc cac diff ac = some bits)
+    (pending : Nat) (hp : pending ≤ 63) :
+    2 * ((pending + bits.length) / 8) ≤ Gen.Src.jchuff_BUFSIZE :=
+  SeqHuff.block_fits_buffer tdc tac cdc cac h1 h3 diff ac hlen hd hac bits he pending hp
 
 end LJT.C13
